@@ -1,7 +1,13 @@
 package sim
 
+import "fmt"
+
 func ledgerConfig(p *PRNG, tier string) Config {
 	return SwarmConfig(p, SwarmOpts{})
+}
+
+func ledgerConfigNST(p *PRNG, tier string) Config {
+	return SwarmConfig(p, SwarmOpts{WithNST: true})
 }
 
 func ledgerPlan(o LedgerGenOpts) func(p *PRNG, cfg Config, tier string) Plan {
@@ -29,6 +35,33 @@ func ledgerPlan(o LedgerGenOpts) func(p *PRNG, cfg Config, tier string) Plan {
 				}
 			}
 		}
+		nst := -1
+		for i, a := range cfg.Assets {
+			if a.NST {
+				nst = i
+			}
+		}
+		if oo.NSTUpdates && nst >= 0 {
+			nRefs := cfg.NOps + cfg.NStakers
+			lz := int64(5000)
+			for bi := range plan.Blocks {
+				if p.Chance(1, 5) {
+					// positive or negative adjustment of 0.1% .. 150% of the recorded deposit
+					plan.Blocks[bi].Ops = append(plan.Blocks[bi].Ops, Op{K: "nstupd", A: p.Intn(nRefs), Amt: fmt.Sprintf("%%%d", []int{1, 50, 300, 700, 1000, 1500}[p.Intn(6)]), M: p.Intn(2)})
+				}
+				if p.Chance(1, 8) {
+					// directed: deposit, delegate half, undelegate it, then a decrease that ends inside the pending record
+					s := p.Intn(nRefs)
+					o := p.Intn(cfg.NOps)
+					lz += 2
+					plan.Blocks[bi].Ops = append(plan.Blocks[bi].Ops,
+						Op{K: "dep", A: s, B: nst, Amt: "=64000000000000000000", D: p.Intn(3)},
+						Op{K: "del", A: s, B: nst, C: o, Amt: "%500", N: lz},
+						Op{K: "und", A: s, B: nst, C: o, Amt: "all", N: lz + 1},
+						Op{K: "nstupd", A: s, Amt: fmt.Sprintf("%%%d", []int{600, 700, 900}[p.Intn(3)]), M: 1})
+				}
+			}
+		}
 		return Epilogue(plan, cfg, int(cfg.UnbondEpochs)+2)
 	}
 }
@@ -40,13 +73,13 @@ var ledgerAssumptions = []string{
 }
 
 func init() {
-	all := LedgerGenOpts{DirectSlashes: true, DowntimeBursts: true, Evidence: true, EpochJumps: true, Restarts: true, Replays: true, Unauthorized: true, BigAmounts: true, CheckTx: true}
+	all := LedgerGenOpts{NSTUpdates: true, DirectSlashes: true, DowntimeBursts: true, Evidence: true, EpochJumps: true, Restarts: true, Replays: true, Unauthorized: true, BigAmounts: true, CheckTx: true}
 	Register(&PropSpec{
 		ID: "C01", Level: "exploration",
-		Rule: "case = swarm config (2-5 operators, 1-4 extra stakers, 1-3 LST assets, native token) x plan of 25-140 blocks with 0-4 ops/block drawn from {deposit, withdraw, delegate, undelegate, associate, dissociate, native delegate/undelegate, opt-in/out, key change, unjail} with state-relative amounts (1 unit, per-mille of position, all, position+1, 2^64..2^255), plus faults {downtime bursts -> slash+jail, equivocation evidence, epoch jumps, restarts, replayed tx bytes, unauthorised callers}; conservation rule evaluated after every BeginBlock, tx and EndBlock; non-trivial = >=1 undelegation completed AND >=1 slash reduced a sum; distinct by (config, plan) hash",
+		Rule: "case = swarm config (2-5 operators, 1-4 extra stakers, 1-3 LST assets, native token) x plan of 25-140 blocks with 0-4 ops/block drawn from {deposit, withdraw, delegate, undelegate, associate, dissociate, native delegate/undelegate, opt-in/out, key change, unjail} with state-relative amounts (1 unit, per-mille of position, all, position+1, 2^64..2^255), plus faults {downtime bursts -> slash+jail, equivocation evidence, epoch jumps, restarts, replayed tx bytes, unauthorised callers}; in half of the runs an NST asset with direct native-restaking balance adjustments (+/- 0.1%..150% of the recorded deposit, also directed at a pending undelegation), after which the asset's sum must have moved exactly with the staker's recorded total deposit, by exactly +a for a positive and within [-a, 0] for a negative adjustment; conservation rule evaluated after every BeginBlock, tx and EndBlock; non-trivial = >=1 undelegation completed AND >=1 slash reduced a sum; distinct by (config, plan) hash",
 		Assumptions: ledgerAssumptions,
 		QuickRuns:   700, ThoroughRuns: 12000,
-		GenConfig: ledgerConfig, GenPlan: ledgerPlan(all),
+		GenConfig: ledgerConfigNST, GenPlan: ledgerPlan(all),
 		Monitors: func() []Monitor { return []Monitor{&c01Monitor{}} },
 		NonTrivial: func(r *Run) bool {
 			m := r.Mons[0].(*c01Monitor)
